@@ -110,6 +110,7 @@ def run(repo, rep, tier):
     r6 = rep.rule('C14.R6', 'pull kinds map 1:1')
 
     close_always_releases(repo, rep)
+    state_is_per_instance(repo, rep)
     mp = repo.cls(MAIN, 'MainProvider')
     # ---------------- R1 who may write ----------------------------------
     allowed = {'_open_response': {'insert'}, '_pull_response': {'delete'},
@@ -748,3 +749,86 @@ def close_always_releases(repo, rep):
                     '%s can refuse CloseEnumeration for a context that is '
                     'in the table: the context is never released'
                     % norm(st, 50))
+
+
+def state_is_per_instance(repo, rep):
+    """C14.R11: the enumeration context table (and every other mutable
+    container the mock server changes through `self`) belongs to one
+    provider object.  A dict / list / set created in the class body is one
+    object shared by all instances: every FakedWBEMConnection of the
+    process then shares one context table - a foreign context is accepted,
+    a pull on one server consumes the objects of another server's session,
+    contexts stay open on servers that never opened them."""
+    r11 = rep.rule('C14.R11', 'mutable containers changed through self are '
+                   'created per instance, not in the class body')
+    MUT = ('append', 'add', 'update', 'pop', 'remove', 'clear', 'insert',
+           'setdefault', 'extend', 'popitem')
+    ncls = 0
+    for rel, m in sorted(repo.modules.items()):
+        if not m.relpath.startswith('pywbem_mock/'):
+            continue
+        for c in m.classes.values():
+            ncls += 1
+            for st in c.node.body:
+                if not (isinstance(st, ast.Assign) and len(st.targets) == 1
+                        and isinstance(st.targets[0], ast.Name)):
+                    continue
+                v = st.value
+                mutable = isinstance(v, (ast.Dict, ast.List, ast.Set)) or (
+                    isinstance(v, ast.Call) and dotted(v.func) in (
+                        'dict', 'list', 'set', 'NocaseDict', 'OrderedDict',
+                        'defaultdict'))
+                if not mutable:
+                    continue
+                name = st.targets[0].id
+                r11.sites += 1
+                hit = None
+                for k in [c] + [x for x in repo.subclasses_of(c.name)
+                                if x is not c]:
+                    rebound = any(
+                        isinstance(n, ast.Attribute) and
+                        isinstance(n.ctx, ast.Store) and
+                        norm(n) == 'self.' + name
+                        for f in k.methods.values()
+                        for n in walk_no_nested(f.node)
+                        if f.name == '__init__')
+                    if rebound:
+                        continue
+                    for f in k.methods.values():
+                        for n in walk_no_nested(f.node):
+                            if isinstance(n, ast.Subscript) and \
+                                    isinstance(n.ctx, (ast.Store, ast.Del)) \
+                                    and norm(n.value) == 'self.' + name:
+                                hit = hit or (f, n)
+                            if isinstance(n, ast.Call) and \
+                                    isinstance(n.func, ast.Attribute) and \
+                                    n.func.attr in MUT and \
+                                    norm(n.func.value) == 'self.' + name:
+                                hit = hit or (f, n)
+                r11.ob(hit is None, '%s.%s' % (c.name, name))
+                if hit is not None:
+                    f, n = hit
+                    rep.finding(r11, c.name, '%s = %s' % (name, norm(v, 30)),
+                                'shared-mutable-state', m.relpath, st.lineno,
+                                '%s.%s is created once in the class body '
+                                'and changed through self (e.g. %s in %s): '
+                                'all %s objects of the process share it'
+                                % (c.name, name, norm(n, 50), f.qualname,
+                                   c.name))
+    # the context table itself is created in MainProvider.__init__
+    mp = repo.cls(MAIN, 'MainProvider')
+    init = mp.methods.get('__init__')
+    r11.sites += 1
+    ok = init is not None and any(
+        isinstance(n, ast.Assign) and
+        norm(n.targets[0]) == 'self.enumeration_contexts'
+        for n in walk_no_nested(init.node))
+    r11.ob(ok, 'MainProvider.__init__:enumeration_contexts')
+    if not ok:
+        rep.finding(r11, 'MainProvider.__init__', 'self.enumeration_contexts',
+                    'not-per-instance', MAIN,
+                    init.node.lineno if init else mp.node.lineno,
+                    'the enumeration context table is not created in '
+                    'MainProvider.__init__: it is not per provider object')
+    if ncls < 10:
+        raise AnalysisError('C14.R11: only %d classes scanned' % ncls)
